@@ -61,29 +61,56 @@ def props_for(root, d, w, a, n, ed="int", ew="int", shape="all keys"):
     return p
 
 
-def run_pair(ps, M, shim, cache, native_root=None):
+def factory_opener(M):
+    """open the store the documented way, through HashStoreFactory.get_hashstore (a fresh copy of hashstore.py per
+    pair stands for one process; the factory resolves 'hashstore.filehashstore' to the module under test)"""
+    import importlib.machinery
+    import sys as _sys
+    Fm = loader.load("hashstore.py")
+    name = "hashstore.filehashstore"
+
+    def opener(props):
+        saved = _sys.modules.get(name)
+        if getattr(M, "__spec__", None) is None:
+            M.__spec__ = importlib.machinery.ModuleSpec(name, None)
+        _sys.modules[name] = M
+        try:
+            return Fm.HashStoreFactory.get_hashstore(name, "FileHashStore", props)
+        finally:
+            if saved is not None:
+                _sys.modules[name] = saved
+            else:
+                _sys.modules.pop(name, None)
+    return opener
+
+
+def run_pair(ps, M, shim, cache, native_root=None, via_factory=False):
     d1, w1 = ps.choose(D1, 1, 6), ps.choose(W1, 1, 5)
     a1, n1 = ps.choose(A1, 0, len(ALGOS)), ps.choose(N1, 0, 2)
     pop = ps.decide(POP)
     key = (d1, w1, a1, n1, pop)
     bad = []
     # ---- creation (cached per creation configuration in the model; rebuilt natively)
+    opener = factory_opener(M) if via_factory else M.FileHashStore
     if native_root is None:
-        if key not in cache:
+        if via_factory or key not in cache:
             F = symfs.FS(symfs.ModelBackend())
             F.b.dirs["/src"] = True
             F.b.create("/src/c", CONTENT)
             F.b.create("/src/d", DOC)
             shim.fs = F
-            s = M.FileHashStore(props_for("/s", d1, w1, a1, n1))
+            s = opener(props_for("/s", d1, w1, a1, n1))
             cid = None
             if pop:
                 cid = s.store_object("pid.1", "/src/c").cid
                 s.store_metadata("pid.1", "/src/d")
             cache[key] = (F.b, cid)
         base, cid = cache[key]
-        F = symfs.FS(base.clone_concrete())
-        shim.fs = F
+        if not via_factory:
+            F = symfs.FS(base.clone_concrete())
+            shim.fs = F
+        else:
+            F.trace = []
         root, srcc = "/s", "/src/c"
     else:
         shutil.rmtree(native_root, ignore_errors=True)
@@ -93,7 +120,7 @@ def run_pair(ps, M, shim, cache, native_root=None):
         with open(native_root + "/src/d", "wb") as fh:
             fh.write(DOC)
         root = native_root + "/s"
-        s = M.FileHashStore(props_for(root, d1, w1, a1, n1))
+        s = opener(props_for(root, d1, w1, a1, n1))
         cid = None
         if pop:
             cid = s.store_object("pid.1", native_root + "/src/c").cid
@@ -109,7 +136,7 @@ def run_pair(ps, M, shim, cache, native_root=None):
     same = (d1, w1, a1, n1) == (d2, w2, a2, n2)
     expect_ok = same and shape in ("all keys", "extra key")
     try:
-        s2 = M.FileHashStore(p2)
+        s2 = opener(p2)
         res = "accepted"
     except symfs.Crash:
         raise
@@ -227,8 +254,8 @@ def replay(tier, payload):
             pins = [v == (z3.BoolVal(vals[str(v)]) if isinstance(vals[str(v)], bool) else z3.IntVal(vals[str(v)]))
                     for v in ALLV if str(v) in vals]
             ps = PathSym(pins)
-            recs = ps.explore(lambda p: fn(p, MN, None, {}, native_root=root) if fn is run_pair
-                              else fn(p, MN, None, native_root=root))
+            recs = ps.explore(lambda p: fn(p, MN, None, {}, native_root=root, via_factory=bool(payload.get("factory")))
+                              if fn is run_pair else fn(p, MN, None, native_root=root))
             r = recs[0]
         hit = [b for b in r["bad"] if b[0] in payload["clauses"]]
         return bool(hit), "native run (unpatched code, real file system): create %s, open with %s -> %s; failing=%s" % (
@@ -252,6 +279,12 @@ def main(tier, replay_payload=None):
         if split == "fresh":
             ps = PathSym([A2 >= 0, D2 >= 1, D2 <= 2, W2 >= 1, W2 <= 2])
             return ps.explore(lambda p: run_fresh(p, M, shim)), ps.st.as_dict(), True
+        if split == "factory":
+            # creation and reopening both through the factory, in one process: one populated 3/2/SHA-256 store,
+            # reopened with every configuration that differs in at most one key
+            ndiff = z3.Sum([z3.If(D1 != D2, 1, 0), z3.If(W1 != W2, 1, 0), z3.If(A1 != A2, 1, 0), z3.If(N1 != N2, 1, 0)])
+            ps = PathSym(domain(tier) + [D1 == 3, W1 == 2, A1 == 2, N1 == 0, POP, ED == 0, EW == 0, SHAPE == 0, ndiff <= 1])
+            return ps.explore(lambda p: run_pair(p, M, shim, {}, via_factory=True)), ps.st.as_dict(), "factory"
         a1, n1 = split
         ps = PathSym(domain(tier) + [A1 == a1, N1 == n1])
         seen = []
@@ -264,7 +297,7 @@ def main(tier, replay_payload=None):
             seen.append(r.pop("sel"))
             return r
         return ps.explore(one), ps.st.as_dict(), False
-    splits = [(a, n) for a in range(len(ALGOS)) for n in range(2)] + ["fresh"]
+    splits = [(a, n) for a in range(len(ALGOS)) for n in range(2)] + ["fresh", "factory"]
     for recs, st, fresh in par_explore(worker, splits):
         run.add_stats(st)
         for r in recs:
@@ -274,11 +307,11 @@ def main(tier, replay_payload=None):
             run.oblige(not r["bad"])
             if r["bad"]:
                 cl = sorted(set(b[0] for b in r["bad"]))
-                diff = "fresh path" if fresh else "reopen"
+                diff = "fresh path" if fresh is True else ("reopen through the factory" if fresh == "factory" else "reopen")
                 sig = "%s :: %s :: outcome=%s :: created %s, opened with %s" % (
                     diff, "+".join(cl), r["res"], r["create"][2:] if not fresh else r["create"], r["reopen"][2:])
                 run.fail(sig, dict(created=r["create"], opened_with=r["reopen"], outcome=r["res"], failing=r["bad"]),
-                         dict(harness="c14", vals=r["vals"], clauses=cl, fresh=fresh))
+                         dict(harness="c14", vals=r["vals"], clauses=cl, fresh=fresh is True, factory=fresh == "factory"))
     run.functions = loader.function_lines(loader.load(), [
         "FileHashStore.__init__", "FileHashStore._load_properties", "FileHashStore._write_properties",
         "FileHashStore._build_hashstore_yaml_string", "FileHashStore._verify_hashstore_properties",
